@@ -160,6 +160,47 @@ theorem remove_present_spec {T : SpkiTable} (iv : SInv T) (r : SpkiRec) (hr : r 
   refine ⟨rfl, sinv_notify (sinv_erase iv d _ hi hm) _ _, by simp, by simp, ?_⟩
   rw [notify_log]
 
+/-- the hash table's `count` is the length of the list -/
+theorem ht_count_eq_length (T : SpkiTable) (iv : SInv T) : T.ht.count = T.list.length := by
+  suffices ∀ n (T : SpkiTable), SInv T → T.list.length = n → T.ht.count = n from this _ T iv rfl
+  intro n
+  induction n with
+  | zero =>
+    intro T iv hl
+    have hnil : T.list = [] := List.eq_nil_of_length_eq_zero hl
+    have hempty : ∀ i, i < T.ht.valid → T.ht.bucket i = [] := by
+      intro i hi
+      cases hb : T.ht.bucket i with
+      | nil => rfl
+      | cons a l =>
+        have : T.ht.Mem a := ⟨i, hi, by rw [hb]; simp⟩
+        have := (mem_node iv a).mp this
+        rw [hnil] at this; simp at this
+    rw [iv.ht.count_eq]
+    generalize T.ht.valid = v at hempty
+    induction v with
+    | zero => rfl
+    | succ v ih =>
+      simp only [sumB]
+      rw [ih (fun i hi => hempty i (by omega)), hempty v (by omega)]; rfl
+  | succ n ih =>
+    intro T iv hl
+    cases hlist : T.list with
+    | nil => rw [hlist] at hl; simp at hl
+    | cons e rest =>
+      have hin : e ∈ T.list := by rw [hlist]; simp
+      have hmem : T.ht.Mem (spkiNode e) := (mem_node iv _).mpr ⟨rfl, hin⟩
+      obtain ⟨hi, hm⟩ := Hashlin.removeExisting_spec iv.ht (spkiNode e) hmem
+      obtain ⟨_, hc⟩ := Hashlin.removeExisting_count iv.ht (spkiNode e) hmem
+      have iv1 := sinv_erase iv e _ hi hm
+      have := ih _ iv1 (by
+        show (T.list.erase e).length = n
+        rw [List.length_erase_of_mem hin]; omega)
+      have e1 : ({ T with ht := T.ht.removeExisting (spkiNode e), list := T.list.erase e } : SpkiTable).ht.count =
+          (T.ht.removeExisting (spkiNode e)).count := rfl
+      rw [e1] at this
+      omega
+
 /-! ### remove by source -/
 
 /-- the loop of `spki_table_src_remove` over a repetition-free list `L` of stored entries -/
